@@ -411,7 +411,23 @@ func (g *c08Gen) ownPrev(exp []c08GoEntry, room int) ([]c08GoEntry, string) {
 	own := c08CopyEntries(exp)
 	mode := "same"
 	switch x := r.Intn(100); {
+	case x < 19:
 	case x < 25:
+		// a stale duplicate of one of our own entries (same reference, other conditions) BEFORE or AFTER the
+		// up-to-date one, e.g. left behind by an earlier retried write
+		if len(own) > 0 && room > 0 {
+			i := r.Intn(len(own))
+			st := c08CopyEntries(own[i : i+1])[0]
+			if g.perturbCond(st.Conds) {
+				if r.Chance(2, 3) {
+					own = append(own[:i], append([]c08GoEntry{st}, own[i:]...)...)
+					mode = "own-stale-duplicate-first"
+				} else {
+					own = append(own, st)
+					mode = "own-stale-duplicate-last"
+				}
+			}
+		}
 	case x < 40:
 		own, mode = nil, "none"
 	case x < 65:
